@@ -33,6 +33,13 @@ func genC19(verifSeed int64, tier string, idx int) *core.Scenario {
 	case "file":
 		sp.Path = "/data/afile"
 	}
+	if sp.DirState != "file" && r.Intn(3) == 0 {
+		if strings.HasPrefix(sp.Path, "/") {
+			sp.Path2 = "/data/second"
+		} else {
+			sp.Path2 = "second-rel"
+		}
+	}
 	sp.Faulty = r.Intn(2) == 0
 	nids := 2 + r.Intn(5)
 	for i := 0; i < nids; i++ {
@@ -85,6 +92,8 @@ func genC19(verifSeed int64, tier string, idx int) *core.Scenario {
 			stored = true
 		case k < 8:
 			st = Step{K: "Retrieve", ID: r.Intn(nids), Via: via}
+		case sp.Path2 != "" && k == 8 && r.Intn(2) == 0:
+			st = Step{K: "Repoint"}
 		default:
 			st = Step{K: "Damage", ID: r.Intn(nids), Dmg: []string{"trunc0", "truncmid", "garbage", "chmod000", "truncsmall", "garbagesmall", "flipbyte"}[r.Intn(7)], D: r.Intn(1 << 16)}
 		}
@@ -285,8 +294,15 @@ func first(s string) string {
 // (or is one of its ancestors, created as a directory), and nothing else changed.
 func (e *env) checkConfinement(after string) {
 	root := strings.TrimSuffix(absClean(e.disk, e.sp.Path), "/")
+	root2 := ""
+	if e.sp.Path2 != "" {
+		root2 = strings.TrimSuffix(absClean(e.disk, e.sp.Path2), "/")
+	}
 	for _, p := range e.disk.Journal {
 		if p == root || strings.HasPrefix(p, root+"/") {
+			continue
+		}
+		if root2 != "" && (p == root2 || strings.HasPrefix(p, root2+"/")) {
 			continue
 		}
 		if strings.HasPrefix(root, p+"/") {
@@ -301,6 +317,9 @@ func (e *env) checkConfinement(after string) {
 	// decoys unchanged
 	for _, be := range e.base {
 		if be.Path == root || strings.HasPrefix(be.Path, root+"/") || be.Dir {
+			continue
+		}
+		if root2 != "" && strings.HasPrefix(be.Path, root2+"/") {
 			continue
 		}
 		data, _, _, ok := e.disk.Lookup(be.Path)
@@ -344,7 +363,8 @@ func execC19(sc *core.Scenario) *core.Result {
 		res.Harness = err.Error()
 		return res
 	}
-	e := &env{sp: sp, res: res, model: map[string]*entry{}}
+	e := &env{sp: sp, res: res, model: map[string]*entry{}, models: map[string]map[string]*entry{}, curPath: sp.Path}
+	e.models[sp.Path] = e.model
 	for _, d := range sp.Docs {
 		e.docs = append(e.docs, docFrom(d))
 	}
@@ -535,6 +555,21 @@ func (e *env) step(i int, st Step) string {
 		}
 		out := e.checkOneFaulty(id, st.Via, fmt.Sprintf("(step %d)", i), firedBefore)
 		return out
+	case "Repoint":
+		// the same FileSystem value is pointed at another directory (and back): from now on that
+		// directory is "the configured directory"
+		next := e.sp.Path2
+		if e.curPath == e.sp.Path2 {
+			next = e.sp.Path
+		}
+		e.fs.Options.Path = next
+		e.curPath = next
+		if e.models[next] == nil {
+			e.models[next] = map[string]*entry{}
+		}
+		e.model = e.models[next]
+		e.res.Probes["storage re-pointed at another directory"]++
+		return "repointed"
 	case "Damage":
 		m := e.model[id]
 		if m == nil || m.doc == nil || len(m.files) == 0 {
